@@ -9,24 +9,28 @@ CLAIMED = {
                     "(every parser and every core check runs on every validate, also for a frame that already carries the schema in its .pandera accessor; every failing "
                     "result is reported), the whole check pipeline from Check.__call__ to the CheckResult (back-end __call__, the preprocess / apply / postprocess dispatchers over the "
                     "full object-kind x output-kind matrix, apply_field / apply_table / apply_dict: no verdict without calling the check function; table-shaped output bounded), joint "
-                    "uniqueness and - shape-bounded - column presence / strict / filter / order.",
+                    "uniqueness and - shape-bounded - column presence / strict / filter / order."
+                    " Since session 4 also: IndexBackend.validate (the index is judged as the series of its own values AND dtype), duplicated nulls among the uniqueness failure cases, the index keeps its own dtype under a dataframe-level dtype, nullable-boolean check outputs (refuted: known finding), frame-level ignore_na from the documentation (refuted: known finding).",
             "note": COMMON_NOTE + "Regex matching is an uninterpreted relation; reshape_failure_cases is opaque."},
     "C18": {"text": "Environment parsing, context save/override/restore on every exit of an arbitrary with-body (generator split at the yield), the scope wrapper "
                     "skip rule, report filtering and the polars depth default are proved for all option values / all depths; the kill switch "
                     "(validation disabled -> argument returned, no back end looked up) at every public validate of the pandas and polars APIs; structural: every core check "
                     "of both back ends (resolved through the MRO of each concrete back-end class) carries exactly one scope and that scope is the declared scope of the reason "
-                    "codes it reports; call-site obligation that parser-stage errors respect the depth (refuted: known finding).",
+                    "codes it reports; call-site obligation that parser-stage errors respect the depth (refuted: known finding)."
+                    " Since session 4 also: the collector contracts of C02 (the handler keeps every error it is offered, whatever the depth).",
             "note": COMMON_NOTE + "The with-body is an arbitrary effect on the context configuration; copy.copy model."},
     "C19": {"text": "Alias constructors are proved to be exactly one call of the canonical constructor with the same arguments; ignore_na/element_wise/"
                     "n_failure_cases/raise_warning semantics of the pandas check back end are proved for all series and option values; group-by checks (call and group formatting); the "
-                    "check pipeline shared with C01 (every option acts only in the step that documents it; dispatch never skips a step).",
+                    "check pipeline shared with C01 (every option acts only in the step that documents it; dispatch never skips a step)."
+                    " Since session 4 also: grouped ignore_na (preprocess_table_with_key with a groupby), nullable-boolean outputs, a dispatcher is refreshed by the built-in it implements.",
             "note": COMMON_NOTE + "groupby(...).head(n) is axiomatised as an arbitrary sub-selection; user predicates are S-callbacks."},
     "C02": {"text": "ErrorHandler.collect_error/collect_errors are proved (eager raises exactly the offered error and records nothing; lazy appends exactly one "
                     "record), every collection loop is proved to offer each failing core result exactly once, in order, carrying the result's fields, the component "
                     "loop loses and invents nothing, and the lazy/eager agreement follows as a lemma over those contracts; the same for the polars container; which cells a "
                     "failing check reports (postprocess_field: exactly the rows whose output is False, also under repeated labels); every run_checks of both back ends yields one "
                     "result per declared check; the polars lazy report lists one row per failure case of every collected error, none merged (failure_cases_metadata over height-only frames). "
-                    "The pandas reshape/consolidate pipelines are not under contract.",
+                    "The pandas reshape/consolidate pipelines are not under contract."
+                    " Since session 4 also: reshape_failure_cases for one-column failure cases (a failure case on a row labelled NaN is kept), the polars producers of row masks (check_nullable, check_unique, joint uniqueness: failure cases in row order, one per masked-out row).",
             "note": COMMON_NOTE + "reshape_failure_cases / consolidate_failure_cases are opaque (pandas unstack/concat pipelines); SchemaErrors.__init__ is used through its contract."},
     "C03": {"text": "Lineage obligations on the real bodies of DataFrameSchemaBackend.validate, ArraySchemaBackend.validate and SeriesSchema.validate: the object that is "
                     "checked and returned is the result of the whole parser chain in order (each parser under its interface contract); drop_invalid_rows row algebra "
@@ -35,7 +39,8 @@ CLAIMED = {
                     "nothing else added), set_default (present columns only) and strict_filter_columns on frames that hold columns column_info does not list (the added ones are kept). "
                     "The custom-parser pipeline (run_parsers of both pandas back ends for 0-3 parsers, run_parser, Parser.__call__, PandasParserBackend) and the write-back of parsed columns by "
                     "ColumnBackend.validate. Idempotence of the individual parsers (library casts) is not decided. Refuted, known findings: polars drop_invalid_rows with head/tail/sample; "
-                    "a column-level drop_invalid_rows inside a DataFrameSchema; column parsers under sub-sampling.",
+                    "a column-level drop_invalid_rows inside a DataFrameSchema; column parsers under sub-sampling."
+                    " Since session 4 also: facts resolved from one frame of the parser chain (column info, dtypes) are used for that frame only (both containers); the coerced index is the index of the result.",
             "note": COMMON_NOTE + "The parsers add_missing_columns/strict_filter_columns/set_defaults/coerce_dtype are replaced by interface contracts (return a derived table or raise "
                     "SchemaError(s)); dtype coercion semantics are pandas/polars facts (C10)."},
     "C04": {"text": "Ownership/frame obligations on every validate entry point of the pandas back end (container, array, column, index, series) and the polars API: with "
@@ -47,12 +52,14 @@ CLAIMED = {
     "C05": {"text": "Frame obligations (every attribute of every pre-existing schema object equals its entry value on every normal and exceptional exit) on the "
                     "validate call graph of the pandas back end, including the mutate-then-revert idioms, for every component kind and every outcome of the component's validate; "
                     "MultiIndexBackend.validate and the polars component functions work on private copies (proved for every outcome); every `check` override of the numpy / pandas / "
-                    "polars engine dtypes leaves its receiver and its argument unwritten on every exit (native dtype objects and data containers are opaque values).",
+                    "polars engine dtypes leaves its receiver and its argument unwritten on every exit (native dtype objects and data containers are opaque values)."
+                    " Since session 4 also: every schema transformation (the C15 contracts: receiver unchanged, nothing mutable shared), the hypothesis check back end (no write to the Hypothesis object), polars dtype-only schemas, closure variables of decorator factories as pre-existing state.",
             "note": COMMON_NOTE + "Serialisation / statistics / strategies / model operations of the property's history alphabet are covered by C12-C16's contracts, not here."},
     "C06": {"text": "Exception-set obligations (only documented classes escape) and restore-on-exceptional-exit obligations with the user callback raising at a symbolic "
                     "position k of each run_checks loop; call-site precondition of drop_invalid_rows; structural obligation that every SchemaError construction site "
                     "uses a mapped reason code; the polars container / column back ends, polars add_missing_columns and set_default (no polars exception class escapes); the mask of a "
-                    "failed polars coercion has one row per data row (else building the report raises); dtype `check` overrides raise nothing.",
+                    "failed polars coercion has one row per data row (else building the report raises); dtype `check` overrides raise nothing."
+                    " Since session 4 also: a raising user parser must stay in the documented channel (refuted: known finding), polars Column default without dtype, polars Category.try_coerce.",
             "note": COMMON_NOTE + "Which exceptions library operations raise is declared per model; an undeclared library exception is outside the claim."},
     "C07": {"text": "Decides the sufficient condition data-race freedom on pandera state: the validate call graph is re-verified with the strict frame (no write, not even "
                     "a reverted one, to schema objects or module globals). The three writes that exist are refuted and listed as known findings with deterministic "
@@ -60,32 +67,37 @@ CLAIMED = {
                     "call (publish order), every declared type gets its back ends, register_backend is an idempotent publish; writes to live module-level containers of pandera "
                     "are tracked; Dispatcher.__call__ (the process-wide object behind every built-in check) only reads; DataFrameModel.to_schema binds only finished objects to the "
                     "class (no in-place write after publication; the same rule is part of the strict frame everywhere); structural inventory: the functions that write module-level state and the "
-                    "memoised functions of all of pandera are exactly the documented ones. Schedules themselves are not enumerated.",
+                    "memoised functions of all of pandera are exactly the documented ones. Schedules themselves are not enumerated."
+                    " Since session 4 also: inventory of interpreter-wide switches (warnings filters, os.environ, numpy / pandas / polars options, seeds).",
             "note": COMMON_NOTE + "pandas/polars/numpy are assumed thread-compatible on distinct data objects; liveness and deadlock are out of reach of contracts."},
     "C08": {"text": "All polars built-in checks are proved against the same spec functions as their pandas twins, and for the 9 comparison/membership checks the REAL "
                     "pandas and polars check back ends are executed side by side symbolically and proved to reach the same verdict for every column, bounds and "
                     "ignore_na=True (ignore_na=False is refuted: known finding). Container level: collect_column_info -> strict_filter_columns -> check_column_presence of BOTH "
                     "back ends against one documented spec of strict / 'filter' / ordered / required / add_missing_columns, for all option values over all column layouts "
                     "with <= 3 declared and <= 3 frame columns (shape-bounded, options symbolic); polars component copies, parsers and null handling of row-wise outputs "
-                    "(ignore_na) as shared with C03/C05/C11; polars check_nullable (incl. NaN in float columns) / check_unique against the pandas specs, with bounded stand-ins.",
+                    "(ignore_na) as shared with C03/C05/C11; polars check_nullable (incl. NaN in float columns) / check_unique against the pandas specs, with bounded stand-ins."
+                    " Since session 4 also: NaN arriving as a float value vs as a null in the twin checks (polars total order of floats modelled; refuted: known findings), unique_values_eq on both back ends, compiled patterns with flags, polars Column.set_default, regex column selection (collect_column_info composed with collect_schema_components), column info regenerated after the parsers, add_missing_columns column order (refuted: known finding).",
             "note": COMMON_NOTE + "polars expression semantics (Kleene logic, all() ignoring nulls) are axioms of pyvc/theories/polars_lite.py; the container twins are bounded in the "
                     "column layout (148 layouts, stated in every obligation note), regex columns excluded; parsed-output equality across back ends is not under contract."},
     "C09": {"text": "DataType.check predicates over the live class lattice with symbolic widths, Engine.dtype resolution order for a generic engine (symbolic equivalents table), "
                     "engine-specific check/dtype entry points, the 27 from_parametrized_dtype converters (every parameter of the native type is forwarded, for all native objects), "
                     "registration (register_dtype registers the parametrised-dtype hook of a class only if the class itself defines it; _register_from_parametrized_dtype), "
-                    "and an exhaustive structural closure over every registered key of the numpy/pandas/polars/pyspark engines.",
+                    "and an exhaustive structural closure over every registered key of the numpy/pandas/polars/pyspark engines."
+                    " Since session 4 also: pandas Engine.dtype itself (TypeError only; bare pyarrow instances), constructor contracts of the polars parametrised types and pandas STRING, Array / ArrowBinary converters, registry clauses data_types_are_value_objects and native_pyarrow_instance_resolves_to_its_arrow_type.",
             "note": COMMON_NOTE + "Parametrised constructors (time zones, units, categories, decimal precision) are bounded stand-ins (listed under bounded, not counted)."},
     "C10": {"text": "The wrappers are proved: try_coerce (pandas, numpy) returns coerce's result, propagates/wraps errors into a ParserError carrying exactly the "
                     "element-wise failure cases; numpy_pandas_coercible is element-wise 'coerce_value does not raise'; schema-level ParserError -> "
                     "SchemaError(DATATYPE_COERCION) with the same failure cases; polars coercible/failure-case row algebra incl. polars_coerce_failure_cases under every way polars can "
                     "refuse the cast (mask over the data rows, failure cases == masked-out rows); polars column / container coercion helpers; polars try_coerce evaluates the cast before returning. The per-dtype casting behaviour "
-                    "(the heart of the property) is a library fact: covered only by a bounded run-time contract on the real try_coerce of the registered types.",
+                    "(the heart of the property) is a library fact: covered only by a bounded run-time contract on the real try_coerce of the registered types."
+                    " Since session 4 also: NpString.coerce over a container theory (object dtype keeps what is written), polars Category.try_coerce, the no-key (dataframe-level dtype) case of polars_object_coercible / polars_coerce_failure_cases proved instead of bounded.",
             "note": COMMON_NOTE + "coerce / coerce_value of each data type are S-callbacks in the proofs; the non-strict polars cast is an uninterpreted 'castable' predicate. "
                     "Bounded part: 40 (quick) / 400 (thorough) containers per data type, length <= 5."},
     "C11": {"text": "pandas drop_invalid_rows: rows(result) == rows whose label no collected error reports, for any number of errors (closed-form invariant), values/order kept; "
                     "polars: rows kept iff every row-aligned check output is true, for all frames and <= 3 errors; what a row-wise polars check reports per row "
                     "(ignore_na leaves no null output, column and dataframe-level checks); the row masks of polars nullability / uniqueness / failed coercion are over the data rows; "
-                    "the call-site preconditions (only row-attributable errors; masks over the frame that is filtered, i.e. no head/tail/sample) are refuted and listed.",
+                    "the call-site preconditions (only row-attributable errors; masks over the frame that is filtered, i.e. no head/tail/sample) are refuted and listed."
+                    " Since session 4 also: the regex component selection of the polars container and reshape_failure_cases (what drop_invalid_rows reads).",
             "note": COMMON_NOTE + "MultiIndex label round trip through str/eval and reshape_failure_cases' 'index' column are not under contract."},
     "C12": {"text": "YAML/JSON leg: the live serialisers and deserialisers are executed as composite round trips (through an assumed dump+load transport that is the identity on "
                     "the JSON domain) and proved attribute by attribute for check statistics/options of all 15 built-in checks, components and whole schemas; script leg: every "
@@ -95,20 +107,25 @@ CLAIMED = {
                     "int64/float64/str, numpy_time_dtypes bounds for datetime/timedelta; field_element_strategy's chaining loop with the invariant support(elements) within the intersection of the checks seen; flag flow of the "
                     "series/index/column assembly and schema strategy entry points; the post-processing pipeline of dataframe_strategy (custom checks without strategy are "
                     "evaluated on the frame that is emitted, the index component is attached; assembly call abstracted to an arbitrary base strategy); structural dispatcher table; "
-                    "structural: no function of the strategy modules keeps state between calls.",
+                    "structural: no function of the strategy modules keeps state between calls."
+                    " Since session 4 also: joint uniqueness of dataframe_strategy is carried by a column that cannot be nulled (all-nullable: known finding); the row strategy honours the columns' own checks.",
             "note": COMMON_NOTE + "hypothesis strategies are modelled by their support (pyvc/theories/hypothesis_lite.py); data_frames/multiindex assembly is a bounded stand-in."},
     "C14": {"text": "Statistics inference, statistics->checks, schema construction and the check serialisation pipeline are proved over all in-quantifier dtypes; lemma: the inferred "
-                    "bounds admit the data and are attained.",
+                    "bounds admit the data and are attained."
+                    " Since session 4 also: RangeIndex (start / stop symbolic, five steps) in infer_index_statistics.",
             "note": COMMON_NOTE + "pd.api.types.infer_dtype answers, float rounding monotonicity and the YAML text leg are assumed / bounded (see notes/C14.md)."},
     "C15": {"text": "Every transformation method (pandas and polars schema classes) is proved per attribute (touched / untouched / schema-level / key order / no shared "
-                    "mutable state / receiver frame / error exits) for all attribute values over an enumerated family of dict shapes; inverse laws as two-operation programs.",
+                    "mutable state / receiver frame / error exits) for all attribute values over an enumerated family of dict shapes; inverse laws as two-operation programs."
+                    " Since session 4 also: the schema-level joint uniqueness constraints under every operation (unique_spec), `required` as part of the reset-after-set law (refuted: known finding).",
             "note": COMMON_NOTE + "Dict shapes are enumerated (3 columns, 2-3 index levels, enumerated request lists): a bound of the claim; 'accepts exactly the transformed frames' is a bounded run-time contract."},
     "C16": {"text": "Check/parser collection over an abstract MRO of unbounded depth (closed-form quantified invariants), to_check/to_parser, Field keyword dispatch, "
-                    "column/index properties, to_schema caching and parent frame; structural tables for the option wiring.",
+                    "column/index properties, to_schema caching and parent frame; structural tables for the option wiring."
+                    " Since session 4 also: _regex_filter with non-text aliases.",
             "note": COMMON_NOTE + "_collect_fields (annotation parsing) is a bounded stand-in over generated hierarchies; Config / extras inheritance is a bounded enumeration over chains, mixins and diamonds (<= 4 model classes)."},
     "C17": {"text": "For 27 signature shapes (arity <= 3 plus *rest/**kw, sync and async) the real decorator factories and wrappers are symbolically executed for all argument "
                     "values, options and behaviours of schema.validate and the body: option forwarding, gate, transparency, designation independence; decoration-time state "
-                    "(closures, handlers) is unchanged by every call (two-phase frame).",
+                    "(closures, handlers) is unchanged by every call (two-phase frame)."
+                    " Since session 4 also: Union annotations with None anywhere; check_io keeps no state between calls (closure variables in the frame).",
             "note": COMMON_NOTE + "The family of signature shapes is a bound of this claim; inspect/typing run natively on real function objects (see notes/C17.md)."},
     "C20": {"text": "pandas subsample is proved against the position-set spec (rows == head U tail U pick, each once, values and order kept) for all "
                     "frames/series, all h,t,n and random states under the unique-index precondition; the any-index form is refuted by the verifier and listed as a "
